@@ -47,51 +47,74 @@ Proof. intros H. unfold cluster_shutdown. rewrite H. reflexivity. Qed.
 Lemma connect_after_shutdown s d : cl_down s = true -> fst (connect s d) = att (set_nconn s (S (nconn s))) 1.
 Proof. intros Hc. unfold connect. simpl. destruct d; auto. apply cluster_shutdown_idem. exact Hc. Qed.
 
+Lemma connect_snd s d : snd (connect s d) = nconn s.
+Proof. reflexivity. Qed.
+
 Opaque connect.
 
 Ltac dflags := first [ assumption
   | match goal with HH : D ?x |- _ => solve [eapply (D_flags x); [| | | | exact HH]; reflexivity] end ].
 
+Lemma D_install_pool s h c : D s -> D (install_pool s h c).
+Proof. intros H. unfold install_pool. destruct (sess_down s); dflags. Qed.
+
+Lemma D_run_task s t o d : D s -> D (run_task s t o d).
+Proof.
+  intros H0. destruct t; cbn [run_task].
+  - destruct o; [|exact H0]. destruct (negb (h <? nh s)); [exact H0|].
+    pose proof (D_connect s d H0) as H1. destruct (connect s d) as [s1 c]; simpl in H1.
+    apply D_install_pool; auto.
+  - destruct (pool s h) as [q|]; [|exact H0].
+    destruct ((pid q =? p) && negb (pshut q)); [|exact H0].
+    destruct o.
+    + pose proof (D_connect s d H0) as H1. destruct (connect s d) as [s1 c]; simpl in H1.
+      destruct (pool s1 h) as [q'|]; [|dflags].
+      destruct (pshut q'); [dflags|].
+      destruct (pconn q') as [c1|]; [|dflags].
+      destruct (c1 =? c0); [|dflags]. destruct m; dflags.
+    + cbn zeta. destruct (sess_down (att s 1)); dflags.
+  - destruct o.
+    + pose proof (D_connect s d H0) as H1. destruct (connect s d) as [s1 c]; simpl in H1.
+      destruct (cc_down s1); [dflags|]. destruct (cc_conn s1); simpl; dflags.
+    + destruct d; [apply D_cluster_shutdown; dflags|].
+      destruct (cc_down s); [dflags|]. cbn zeta. destruct (sched_down (att s (nh s))); dflags.
+Qed.
+
+Lemma D_fire s t o d : D s -> D (fire s t o d).
+Proof.
+  intros H0. destruct t; cbn [fire].
+  - destruct live; cbn [negb]; [|exact H0]. destruct o.
+    + pose proof (D_connect s d H0) as H1. destruct (connect s d) as [s1 c]; simpl in H1. dflags.
+    + cbn zeta. destruct (sched_down (att s 1)); dflags.
+  - destruct live; cbn [negb]; [|exact H0]. destruct o.
+    + pose proof (D_connect s d H0) as H1. destruct (connect s d) as [s1 c]; simpl in H1.
+      destruct (cc_down s1); [dflags|]. destruct (cc_conn s1); simpl; dflags.
+    + destruct d; [apply D_cluster_shutdown; dflags|].
+      cbn zeta. destruct (sched_down (att s (nh s))); dflags.
+Qed.
+
 Lemma D_step s o : D s -> D (fst (step s o)).
 Proof.
-  intros H. destruct o; simpl.
+  intros H. destruct o; [simpl | simpl | simpl | simpl | simpl | simpl | simpl | simpl | cbn [step] | simpl | simpl | simpl | simpl].
   - destruct (sess_down s); simpl; dflags.
-  - destruct (pool_conn (pool s h)); simpl.
-    + destruct (sess_down s); simpl; dflags.
-    + dflags.
+  - destruct (pool s h) as [q|]; [|exact H]. destruct (pconn q); [|exact H].
+    destruct (prepl q || pshut q); [exact H|]. destruct (sess_down s); simpl; dflags.
+  - destruct (pool s h) as [q|]; [|exact H]. destruct (pconn q); [|exact H].
+    destruct (pshut q); [exact H|]. destruct (prepl q); [simpl; dflags|]. destruct (sess_down s); simpl; dflags.
+  - destruct (pool s h) as [q|]; [|exact H]. destruct (ptrash q) as [|c0 rest]; [exact H|].
+    destruct (pshut q || existsb (Nat.eqb c0) (closed s)); simpl; dflags.
   - destruct (cc_down s || cl_down s); simpl; dflags.
   - destruct (sched_down s); simpl; dflags.
-  - destruct (nth_error (queue s) k) as [t|]; simpl; [|dflags].
+  - destruct (nth_error (queue s) k) as [t|]; simpl; [|exact H]. apply D_run_task. dflags.
+  - destruct (sched_down s) eqn:Es; simpl; [exact H|].
+    destruct (nth_error (timers s) k) as [t|]; simpl; [|exact H]. apply D_fire. dflags.
+  - destruct (nth_error (queue s) k) as [[h i|? ? ? ?|]|]; try exact H.
+    match goal with |- context [nth_error ?l j] => destruct (nth_error l j) as [[h' i'|? ? ? ?|]|] end; try exact H.
+    destruct (negb (h <? nh s) || negb (h' <? nh s)); [exact H|].
     assert (H0 : D (set_queue s (remove_nth k (queue s)))) by dflags.
-    set (s0 := set_queue s (remove_nth k (queue s))) in *.
-    destruct t; cbn [run_task].
-    + destruct o; [|exact H0]. destruct (negb (h <? nh s0)); [exact H0|].
-      pose proof (D_connect s0 during H0) as H1.
-      destruct (connect s0 during) as [s1 c]; simpl in *. destruct (sess_down s1); [dflags|].
-      destruct (pool_conn (pool s1 h)); simpl; dflags.
-    + destruct (pool s0 h) as [[[c0'|] [|]]|]; try exact H0. destruct (c0' =? c0); [|exact H0].
-      destruct o.
-      * pose proof (D_connect s0 during H0) as H1. destruct (connect s0 during) as [s1 c]; simpl in *.
-        destruct (pool s1 h) as [[[?|] [|]]|]; simpl; dflags.
-      * cbn zeta. destruct (sess_down (att s0 1)); dflags.
-    + destruct o.
-      * pose proof (D_connect s0 during H0) as H1. destruct (connect s0 during) as [s1 c]; simpl in *.
-        destruct (cc_down s1); [dflags|]. destruct (cc_conn s1); simpl; dflags.
-      * destruct during; [apply D_cluster_shutdown; dflags|].
-        destruct (cc_down s0); [dflags|]. cbn zeta. destruct (sched_down (att s0 (nh s0))); dflags.
-  - destruct (sched_down s) eqn:Es; simpl; [dflags|].
-    destruct (nth_error (timers s) k) as [t|]; simpl; [|dflags].
-    assert (H0 : D (set_timers s (remove_nth k (timers s)))) by dflags.
-    set (s0 := set_timers s (remove_nth k (timers s))) in *.
-    destruct t; cbn [fire].
-    + destruct live; cbn [negb]; [|exact H0]. destruct o.
-      * pose proof (D_connect s0 during H0) as H1. destruct (connect s0 during) as [s1 c]; simpl in *. dflags.
-      * cbn zeta. destruct (sched_down (att s0 1)); dflags.
-    + destruct live; cbn [negb]; [|exact H0]. destruct o.
-      * pose proof (D_connect s0 during H0) as H1. destruct (connect s0 during) as [s1 c]; simpl in *.
-        destruct (cc_down s1); [dflags|]. destruct (cc_conn s1); simpl; dflags.
-      * destruct during; [apply D_cluster_shutdown; dflags|].
-        cbn zeta. destruct (sched_down (att s0 (nh s0))); dflags.
+    pose proof (D_connect _ false H0) as H1.
+    destruct (connect (set_queue s (remove_nth k (queue s))) false) as [s1 c]; simpl in H1. cbn [fst].
+    apply D_install_pool. apply D_run_task. dflags.
   - apply D_cluster_shutdown; auto.
   - apply D_session_shutdown; auto.
   - exact H.
@@ -104,84 +127,144 @@ Proof. induction os; simpl; intros s H; auto. apply IHos. apply D_step; auto. Qe
 Lemma D_init n : D (init n).
 Proof. unfold D, init; simpl. discriminate. Qed.
 
-(* ---------------------------------------------------------------- after shutdown nothing new is accepted *)
+(* ---------------------------------------------------------------- after the shutdown nothing new is accepted or started *)
+Definition AD (s : st) : Prop := cl_down s = true /\ sess_down s = true /\ cc_down s = true /\ sched_down s = true.
+(* s' follows s after the shutdown: no new task, same timers, at most n more connection attempts, still shut down *)
+Definition NW (s s' : st) (n : nat) : Prop :=
+  (forall t, In t (queue s') -> In t (queue s)) /\ timers s' = timers s /\ attempts s' <= attempts s + n /\ AD s'.
+
+Lemma NW_refl s : AD s -> NW s s 0.
+Proof. intros H. repeat split; try apply H; auto; try lia. Qed.
+
+Lemma NW_trans a b c n m : NW a b n -> NW b c m -> NW a c (n + m).
+Proof.
+  intros (A1 & A2 & A3 & A4) (B1 & B2 & B3 & B4). repeat split; try apply B4; auto; try congruence; try lia.
+Qed.
+
+Lemma NW_weaken a b n m : n <= m -> NW a b n -> NW a b m.
+Proof. intros Hl (A1 & A2 & A3 & A4). repeat split; try apply A4; auto; try lia. Qed.
+
+(* same flags, same queue/timers/attempts *)
+Lemma NW_same s s' : AD s -> queue s' = queue s -> timers s' = timers s -> attempts s' = attempts s ->
+  cl_down s' = cl_down s -> sess_down s' = sess_down s -> cc_down s' = cc_down s -> sched_down s' = sched_down s -> NW s s' 0.
+Proof.
+  intros (A & B & C & D0) E1 E2 E3 F1 F2 F3 F4. unfold NW, AD. rewrite E1, E2, E3, F1, F2, F3, F4. repeat split; auto. lia.
+Qed.
+
+Ltac nwsame := match goal with HA : AD ?x |- NW ?x _ 0 => solve [apply (NW_same x); [exact HA | reflexivity ..]] end.
+
 Lemma In_remove_nth {A} (k : nat) (l : list A) x : In x (remove_nth k l) -> In x l.
 Proof. revert k; induction l; intros k Hin; destruct k; simpl in *; auto. destruct Hin; eauto. Qed.
 
-Lemma no_new_work s o : cl_down s = true -> sess_down s = true -> cc_down s = true -> sched_down s = true ->
-  let s' := fst (step s o) in
-  (forall t, In t (queue s') -> In t (queue s)) /\ timers s' = timers s /\ snd (step s o) <> Accepted \/
-  (o = OSubmit \/ o = ORequest) /\ step s o = (s, Refused).
+Lemma AD_att s n : AD s -> AD (att s n). Proof. auto. Qed.
+
+Lemma NW_att s n : AD s -> NW s (att s n) n.
+Proof. intros H. repeat split; try apply H; auto; try (simpl; lia). Qed.
+
+Lemma connect_AD s d s1 c : AD s -> connect s d = (s1, c) -> s1 = att (set_nconn s (S (nconn s))) 1 /\ c = nconn s.
 Proof.
-  intros Hc Hs Hcc Hsc. destruct o; simpl; rewrite ?Hc, ?Hs, ?Hcc, ?Hsc; simpl; auto; try (left; repeat split; auto; discriminate).
-  - left. destruct (pool_conn (pool s h)); simpl; repeat split; auto; discriminate.
-  - left. destruct (nth_error (queue s) k) as [t|] eqn:Ek; simpl; [|repeat split; auto; discriminate].
-    set (s0 := set_queue s (remove_nth k (queue s))).
-    assert (Q0 : forall t, In t (queue s0) -> In t (queue s)) by (intros x Hx; eapply In_remove_nth; exact Hx).
-    assert (Hconn : forall d, fst (connect s0 d) = att (set_nconn s0 (S (nconn s0))) 1).
-    { intros d. apply connect_after_shutdown. exact Hc. }
-    destruct t; cbn [run_task].
-    + destruct o; [|repeat split; auto; discriminate].
-      destruct (negb (h <? nh s0)); [repeat split; auto; discriminate|].
-      pose proof (Hconn during) as E. destruct (connect s0 during) as [s1 c]; simpl in E; subst s1. simpl. rewrite Hs.
-      simpl. repeat split; auto; discriminate.
-    + destruct (pool s0 h) as [[[c0'|] [|]]|]; try (repeat split; auto; discriminate).
-      destruct (c0' =? c0); [|repeat split; auto; discriminate].
-      destruct o.
-      * pose proof (Hconn during) as E. destruct (connect s0 during) as [s1 c]; simpl in E; subst s1. simpl.
-        destruct (pool s h) as [[[?|] [|]]|]; simpl; repeat split; auto; discriminate.
-      * simpl. rewrite Hs. repeat split; auto; discriminate.
-    + destruct o.
-      * pose proof (Hconn during) as E. destruct (connect s0 during) as [s1 c]; simpl in E; subst s1. simpl. rewrite Hcc.
-        simpl. repeat split; auto; discriminate.
-      * destruct during.
-        -- rewrite (cluster_shutdown_idem (att s0 1) Hc). simpl. repeat split; auto; discriminate.
-        -- simpl. rewrite Hcc. simpl. repeat split; auto; discriminate.
-  - left. rewrite (cluster_shutdown_idem s Hc). repeat split; auto; discriminate.
-  - left. unfold session_shutdown. rewrite Hs. repeat split; auto; discriminate.
+  intros (A & _) E. pose proof (connect_after_shutdown s d A) as E1. pose proof (connect_snd s d) as E2.
+  rewrite E in *. simpl in *. auto.
 Qed.
 
-
-(* after the shutdown a step starts at most ONE connection attempt (the one of a task that was already queued) *)
-Lemma one_late_attempt s o : cl_down s = true -> sess_down s = true -> cc_down s = true -> sched_down s = true ->
-  attempts (fst (step s o)) <= S (attempts s).
+Lemma NW_connect s d s1 c : AD s -> connect s d = (s1, c) -> NW s s1 1.
 Proof.
-  intros Hc Hs Hcc Hsc. destruct o; simpl; rewrite ?Hc, ?Hs, ?Hcc, ?Hsc; simpl; auto.
-  - destruct (pool_conn (pool s h)); simpl; auto.
-  - destruct (nth_error (queue s) k) as [t|] eqn:Ek; simpl; auto.
-    set (s0 := set_queue s (remove_nth k (queue s))).
-    assert (Hconn : forall d, fst (connect s0 d) = att (set_nconn s0 (S (nconn s0))) 1).
-    { intros d. apply connect_after_shutdown. exact Hc. }
-    destruct t; cbn [run_task].
-    + destruct o; auto. destruct (negb (h <? nh s0)); auto.
-      pose proof (Hconn during) as E. destruct (connect s0 during) as [s1 c]; simpl in E; subst s1. simpl. rewrite Hs.
-      simpl. lia.
-    + destruct (pool s0 h) as [[[c0'|] [|]]|]; auto. destruct (c0' =? c0); auto.
-      destruct o.
-      * pose proof (Hconn during) as E. destruct (connect s0 during) as [s1 c]; simpl in E; subst s1. simpl.
-        destruct (pool s h) as [[[?|] [|]]|]; simpl; try lia.
-      * simpl. rewrite Hs. simpl. lia.
-    + destruct o.
-      * pose proof (Hconn during) as E. destruct (connect s0 during) as [s1 c]; simpl in E; subst s1. simpl. rewrite Hcc.
-        simpl. lia.
-      * destruct during.
-        -- rewrite (cluster_shutdown_idem (att s0 1) Hc). simpl. lia.
-        -- simpl. rewrite Hcc. simpl. lia.
-  - rewrite (cluster_shutdown_idem s Hc). auto.
-  - unfold session_shutdown. rewrite Hs. auto.
+  intros H E. destruct (connect_AD s d s1 c H E) as [-> _]. repeat split; try apply H; auto; try (simpl; lia).
+Qed.
+
+Lemma NW_install_pool s h c : AD s -> NW s (install_pool s h c) 0.
+Proof. intros H. unfold install_pool. destruct H as (A & B & C & D0). rewrite B. apply NW_same; repeat split; auto. Qed.
+
+Lemma NW_cluster_shutdown s : AD s -> NW s (cluster_shutdown s) 0.
+Proof. intros H. rewrite (cluster_shutdown_idem s (proj1 H)). apply NW_refl; auto. Qed.
+
+Lemma NW_run_task s t o d : AD s -> NW s (run_task s t o d) 1.
+Proof.
+  intros H. destruct t; cbn [run_task].
+  - destruct o; [|apply (NW_weaken _ _ 0); [lia | apply NW_refl; auto]].
+    destruct (negb (h <? nh s)); [apply (NW_weaken _ _ 0); [lia | apply NW_refl; auto]|].
+    destruct (connect s d) as [s1 c] eqn:Ec. pose proof (NW_connect _ _ _ _ H Ec) as H1.
+    apply (NW_trans _ _ _ 1 0 H1). apply NW_install_pool. apply H1.
+  - destruct (pool s h) as [q|]; [|apply (NW_weaken _ _ 0); [lia | apply NW_refl; auto]].
+    destruct ((pid q =? p) && negb (pshut q)); [|apply (NW_weaken _ _ 0); [lia | apply NW_refl; auto]].
+    destruct o.
+    + destruct (connect s d) as [s1 c] eqn:Ec. pose proof (NW_connect _ _ _ _ H Ec) as H1.
+      assert (HA : AD s1) by apply H1.
+      apply (NW_trans _ _ _ 1 0 H1).
+      destruct (pool s1 h) as [q'|]; [|nwsame].
+      destruct (pshut q'); [nwsame|].
+      destruct (pconn q') as [c1|]; [|nwsame].
+      destruct (c1 =? c0); [|nwsame]. destruct m; nwsame.
+    + cbn zeta. pose proof (NW_att s 1 H) as H1. destruct H as (A & B & C & D0).
+      replace (sess_down (att s 1)) with true by (symmetry; exact B). exact H1.
+  - destruct o.
+    + destruct (connect s d) as [s1 c] eqn:Ec. pose proof (NW_connect _ _ _ _ H Ec) as H1.
+      assert (HA : AD s1) by apply H1.
+      apply (NW_trans _ _ _ 1 0 H1).
+      replace (cc_down s1) with true by (symmetry; apply HA). nwsame.
+    + destruct d.
+      * apply (NW_trans _ _ _ 1 0 (NW_att s 1 H)). apply NW_cluster_shutdown. apply AD_att; auto.
+      * replace (cc_down s) with true by (symmetry; apply H). apply NW_att; auto.
+Qed.
+
+(* what one operation may do once the cluster is shut down *)
+Definition bound (o : op) : nat := match o with ORunNested _ _ => 2 | _ => 1 end.
+
+Lemma after_shutdown s o : AD s -> NW s (fst (step s o)) (bound o) /\ snd (step s o) <> Accepted.
+Proof.
+  intros H. pose proof H as (A & B & C & D0).
+  assert (R0 : forall n, NW s s n) by (intros n; apply (NW_weaken _ _ 0); [lia | apply NW_refl; auto]).
+  destruct o; [simpl | simpl | simpl | simpl | simpl | simpl | simpl | simpl | cbn [step] | simpl | simpl | simpl | simpl];
+    rewrite ?A, ?B, ?C, ?D0; simpl; try (split; [apply R0 | discriminate]).
+  - destruct (pool s h) as [q|]; [|split; [apply R0 | discriminate]].
+    destruct (pconn q); [|split; [apply R0 | discriminate]].
+    destruct (prepl q || pshut q); [split; [apply R0 | discriminate]|]. simpl.
+    split; [|discriminate]. apply (NW_weaken _ _ 0); [lia|]. nwsame.
+  - destruct (pool s h) as [q|]; [|split; [apply R0 | discriminate]].
+    destruct (pconn q); [|split; [apply R0 | discriminate]].
+    destruct (pshut q); [split; [apply R0 | discriminate]|].
+    destruct (prepl q); simpl; (split; [|discriminate]); apply (NW_weaken _ _ 0); try lia; nwsame.
+  - destruct (pool s h) as [q|]; [|split; [apply R0 | discriminate]].
+    destruct (ptrash q) as [|c0 rest]; [split; [apply R0 | discriminate]|].
+    destruct (pshut q || existsb (Nat.eqb c0) (closed s)); simpl; (split; [|discriminate]); [apply R0|].
+    apply (NW_weaken _ _ 0); [lia|]. nwsame.
+  - destruct (nth_error (queue s) k) as [t|] eqn:Ek; simpl; [|split; [apply R0 | discriminate]].
+    split; [|discriminate].
+    assert (H0 : NW s (set_queue s (remove_nth k (queue s))) 0).
+    { repeat split; auto; try (simpl; lia). intros x Hx. eapply In_remove_nth; exact Hx. }
+    apply (NW_trans _ _ _ 0 1 H0). apply NW_run_task. apply H0.
+  - destruct (nth_error (queue s) k) as [[h i|? ? ? ?|]|]; try (split; [apply R0 | discriminate]).
+    match goal with |- context [nth_error ?l j] => destruct (nth_error l j) as [[h' i'|? ? ? ?|]|] end;
+      try (split; [apply R0 | discriminate]).
+    destruct (negb (h <? nh s) || negb (h' <? nh s)); [split; [apply R0 | discriminate]|].
+    assert (H0 : NW s (set_queue s (remove_nth k (queue s))) 0).
+    { repeat split; auto; try (simpl; lia). intros x Hx. eapply In_remove_nth; exact Hx. }
+    destruct (connect (set_queue s (remove_nth k (queue s))) false) as [s1 c] eqn:Ec.
+    pose proof (NW_connect _ _ _ _ (proj2 (proj2 (proj2 H0))) Ec) as H1. cbn [fst snd].
+    split; [|discriminate].
+    assert (H2 : NW s1 (set_queue s1 (remove_nth j (queue s1))) 0).
+    { repeat split; try apply H1; auto; try (simpl; lia). intros x Hx. eapply In_remove_nth; exact Hx. }
+    pose proof (NW_run_task _ (KAddPool h' i') Ok false (proj2 (proj2 (proj2 H2)))) as H3.
+    pose proof (NW_install_pool _ h c (proj2 (proj2 (proj2 H3)))) as H4.
+    pose proof (NW_trans _ _ _ _ _ H0 (NW_trans _ _ _ _ _ H1 (NW_trans _ _ _ _ _ H2 (NW_trans _ _ _ _ _ H3 H4)))) as HT.
+    simpl in HT. exact HT.
+  - rewrite (cluster_shutdown_idem s A). split; [apply R0 | discriminate].
+  - unfold session_shutdown. rewrite B. split; [apply R0 | discriminate].
 Qed.
 
 (* ---------------------------------------------------------------- KK: every opened connection is closed or has a holder *)
 Transparent connect.
 
 Definition held (s : st) (c : nat) : Prop :=
-  In c (closed s) \/ cc_conn s = Some c \/ exists h, pool_conn (pool s h) = Some c.
+  In c (closed s) \/ cc_conn s = Some c \/ exists h, In c (opl_conns (pool s h)).
 
-Definition KKn (s : st) (n : nat) : Prop :=
-  (forall c, c < n -> held s c) /\
+(* dom = the connections that must be accounted for (one being installed by the running step may be exempt) *)
+Definition KKd (s : st) (dom : nat -> Prop) : Prop :=
+  (forall c, dom c -> held s c) /\
   (cc_down s = true -> cc_conn s = None) /\
-  (sess_down s = true -> forall h, pool_conn (pool s h) = None) /\
+  (sess_down s = true -> forall h q, pool s h = Some q -> pshut q = true /\ pl_conns q = []) /\
   (forall h, nh s <= h -> pool s h = None).
+Definition KKn (s : st) (n : nat) : Prop := KKd s (fun c => c < n).
 
 Definition KK (s : st) : Prop := KKn s (nconn s).
 
@@ -189,17 +272,20 @@ Lemma KKn_frame s s' n :
   closed s' = closed s -> cc_conn s' = cc_conn s -> pool s' = pool s -> cc_down s' = cc_down s ->
   sess_down s' = sess_down s -> nh s' = nh s -> KKn s n -> KKn s' n.
 Proof.
-  intros E1 E2 E3 E4 E5 E6 (A & B & C & D0). unfold KKn, held. rewrite E1, E2, E3, E4, E5, E6. auto.
+  intros E1 E2 E3 E4 E5 E6 (A & B & C & D0). unfold KKn, KKd, held. rewrite E1, E2, E3, E4, E5, E6. auto.
 Qed.
 
 Ltac kframe := first [ assumption
   | match goal with HH : KKn ?x ?n |- KKn _ ?n => solve [apply (KKn_frame x); [reflexivity ..| exact HH]] end ].
 
-Lemma KKn_close s n c : KKn s n -> KKn (close s c) n.
+Lemma KKn_close_all s n l : KKn s n -> KKn (close_all s l) n.
 Proof.
   intros (A & B & C & D0). split; [|auto]. intros x Hx. destruct (A x Hx) as [H | [H | H]].
-  - left. simpl. auto. - right; left; auto. - right; right; auto.
+  - left. simpl. apply in_or_app; auto. - right; left; auto. - right; right; auto.
 Qed.
+
+Lemma KKn_close s n c : KKn s n -> KKn (close s c) n.
+Proof. apply (KKn_close_all s n [c]). Qed.
 
 Lemma KKn_close_new s n : KKn s n -> KKn (close s n) (S n).
 Proof.
@@ -210,18 +296,21 @@ Qed.
 Lemma KKn_close_opt s n o : KKn s n -> KKn (close_opt s o) n.
 Proof. destruct o; simpl; auto using KKn_close. Qed.
 
+Lemma opl_conns_shut o : opl_conns (shut_pool o) = [].
+Proof. destruct o; reflexivity. Qed.
+
 Lemma KKn_session_shutdown s n : KKn s n -> KKn (session_shutdown s) n.
 Proof.
-  intros (A & B & C & D0). unfold session_shutdown. destruct (sess_down s) eqn:Es; [repeat split; auto|].
+  intros (A & B & C & D0). unfold session_shutdown. destruct (sess_down s) eqn:Es.
+  { split; [|split; [|split]]; auto. rewrite Es. exact C. }
   split; [|split; [|split]]; simpl; auto.
   - intros x Hx. destruct (A x Hx) as [H | [H | [h H]]].
     + left. simpl. apply in_or_app; auto.
     + right; left; auto.
-    + left. simpl. apply in_or_app. left. apply in_flat_map. exists h. split.
-      * apply in_seq. split; [lia|]. simpl. destruct (Nat.lt_ge_cases h (nh s)) as [|Hge]; auto.
-        rewrite (D0 h Hge) in H. discriminate.
-      * rewrite H. simpl; auto.
-  - intros _ h. destruct (pool s h) as [[? ?]|]; reflexivity.
+    + left. simpl. apply in_or_app. left. apply in_flat_map. exists h. split; auto.
+      apply in_seq. split; [lia|]. simpl. destruct (Nat.lt_ge_cases h (nh s)) as [|Hge]; auto.
+      rewrite (D0 h Hge) in H. destruct H.
+  - intros _ h q Hq. destruct (pool s h) as [q0|]; simpl in Hq; [|discriminate]. inversion Hq; subst. split; reflexivity.
   - intros h Hh. rewrite (D0 h Hh). reflexivity.
 Qed.
 
@@ -265,38 +354,34 @@ Lemma connect_spec s d s1 c : KK s -> connect s d = (s1, c) ->
   KKn s1 (nconn s) /\ c = nconn s /\ nconn s1 = S (nconn s) /\ nh s1 = nh s.
 Proof.
   intros H E. unfold connect in E. inversion E; subst; clear E.
-  assert (H0 : KKn (set_nconn s (S (nconn s))) (nconn s)) by (unfold KK in H; kframe).
+  assert (H0 : KKn (att (set_nconn s (S (nconn s))) 1) (nconn s)) by (unfold KK in H; kframe).
   destruct d.
   - split; [apply KKn_cluster_shutdown; auto|]. split; auto. rewrite nconn_cluster_shutdown, nh_cluster_shutdown. auto.
   - auto.
 Qed.
 
-(* installing the new connection c = n in the pool of host h, closing the one it replaces *)
-Lemma KKn_install_pool s n h : KKn s n -> sess_down s = false -> h < nh s ->
-  KKn (close_opt (upd_pool s h (Some (Some n, false))) (pool_conn (pool s h))) (S n).
+(* the pool of host h becomes q' while the connections in l are closed: fine as long as nothing the old pool held, and none
+   of the connections n..N-1 opened meanwhile, is dropped *)
+Lemma KKn_upd s n N h q' l : KKn s n -> sess_down s = false -> h < nh s ->
+  (forall x, In x (opl_conns (pool s h)) -> In x l \/ In x (pl_conns q')) ->
+  (forall x, n <= x -> x < N -> In x l \/ In x (pl_conns q')) ->
+  KKn (close_all (upd_pool s h (Some q')) l) N.
 Proof.
-  intros (A & B & C & D0) Hs Hh.
-  assert (Hcl : forall x, In x (closed s) -> In x (closed (close_opt (upd_pool s h (Some (Some n, false))) (pool_conn (pool s h))))).
-  { intros x Hx. destruct (pool_conn (pool s h)); simpl; auto. }
-  assert (Hcc : cc_conn (close_opt (upd_pool s h (Some (Some n, false))) (pool_conn (pool s h))) = cc_conn s)
-    by (destruct (pool_conn (pool s h)); reflexivity).
-  assert (Hpool : pool (close_opt (upd_pool s h (Some (Some n, false))) (pool_conn (pool s h))) =
-                  fun x => if x =? h then Some (Some n, false) else pool s x)
-    by (destruct (pool_conn (pool s h)); reflexivity).
-  split; [|split; [|split]].
-  - intros x Hx. assert (x < n \/ x = n) as [Hl | ->] by lia.
-    + destruct (A x Hl) as [H | [H | [h' H]]].
-      * left; auto.
-      * right; left. rewrite Hcc; auto.
-      * destruct (h' =? h) eqn:E.
-        -- apply Nat.eqb_eq in E; subst h'. left. rewrite H. simpl. auto.
-        -- right; right. exists h'. rewrite Hpool. rewrite E. auto.
-    + right; right. exists h. rewrite Hpool. rewrite Nat.eqb_refl. reflexivity.
-  - rewrite Hcc. destruct (pool_conn (pool s h)); simpl; auto.
-  - intros Hd. exfalso. destruct (pool_conn (pool s h)); simpl in Hd; congruence.
-  - intros x Hx. rewrite Hpool. destruct (x =? h) eqn:E.
-    + apply Nat.eqb_eq in E; subst. destruct (pool_conn (pool s h)); simpl in Hx; lia.
-    + destruct (pool_conn (pool s h)); simpl in Hx; auto.
+  intros (A & B & C & D0) Hs Hh Hold Hnew.
+  assert (Hq : forall x, In x l \/ In x (pl_conns q') -> held (close_all (upd_pool s h (Some q')) l) x).
+  { intros x [Hx | Hx].
+    - left. simpl. apply in_or_app; auto.
+    - right; right. exists h. simpl. rewrite Nat.eqb_refl. exact Hx. }
+  split; [|split; [|split]]; simpl; auto.
+  - intros x Hx. destruct (Nat.lt_ge_cases x n) as [Hl | Hge]; [|apply Hq; apply Hnew; auto].
+    destruct (A x Hl) as [H | [H | [h' H]]].
+    + left. simpl. apply in_or_app; auto.
+    + right; left; auto.
+    + destruct (h' =? h) eqn:E.
+      * apply Nat.eqb_eq in E; subst h'. apply Hq. apply Hold. exact H.
+      * right; right. exists h'. simpl. rewrite E. exact H.
+  - intros Hd. congruence.
+  - intros x Hx. destruct (x =? h) eqn:E; auto. apply Nat.eqb_eq in E; subst. lia.
 Qed.
 
 (* _set_new_connection(c) with c = n *)
@@ -316,6 +401,64 @@ Proof.
   - destruct (cc_conn s); simpl; auto.
 Qed.
 
+Lemma pool_in_range s n h q : KKn s n -> pool s h = Some q -> h < nh s.
+Proof.
+  intros (_ & _ & _ & D0) Hq. destruct (Nat.lt_ge_cases h (nh s)) as [|Hge]; auto. rewrite (D0 h Hge) in Hq. discriminate.
+Qed.
+
+Lemma live_pool_session_up s n h q : KKn s n -> pool s h = Some q -> pshut q = false -> sess_down s = false.
+Proof.
+  intros (_ & _ & C & _) Hq Hs. destruct (sess_down s) eqn:E; auto. destruct (C eq_refl h q Hq) as [H _]. congruence.
+Qed.
+
+Lemma KKn_install_pool s n h : KKn s n -> h < nh s -> KKn (install_pool s h n) (S n).
+Proof.
+  intros H Hh. unfold install_pool. destruct (sess_down s) eqn:Es; [apply KKn_close_new; exact H|].
+  eapply KKn_frame; [| | | | | | apply (KKn_upd s n (S n) h (mkp (npool s) (Some n) false false []) (opl_conns (pool s h)) H Es Hh)];
+    try reflexivity.
+  - intros x Hx; auto.
+  - intros x H1 H2. right. assert (x = n) by lia. subst. simpl. auto.
+Qed.
+
+(* ---- the same facts for an arbitrary domain (needed when a connection is still being installed by the running step) *)
+Lemma KKd_frame s s' dom :
+  closed s' = closed s -> cc_conn s' = cc_conn s -> pool s' = pool s -> cc_down s' = cc_down s ->
+  sess_down s' = sess_down s -> nh s' = nh s -> KKd s dom -> KKd s' dom.
+Proof.
+  intros E1 E2 E3 E4 E5 E6 (A & B & C & D0). unfold KKd, held. rewrite E1, E2, E3, E4, E5, E6. auto.
+Qed.
+
+Lemma KKd_mono s (dom dom' : nat -> Prop) : (forall c, dom' c -> dom c) -> KKd s dom -> KKd s dom'.
+Proof. intros Hm (A & B & C & D0). split; auto. Qed.
+
+Lemma KKd_close_add s dom c : KKd s dom -> KKd (close s c) (fun x => dom x \/ x = c).
+Proof.
+  intros (A & B & C & D0). split; [|auto]. intros x [Hx | ->].
+  - destruct (A x Hx) as [H | [H | H]]; [left; simpl; auto | right; left; auto | right; right; auto].
+  - left. simpl. auto.
+Qed.
+
+Lemma KKd_install_pool s dom h c : KKd s dom -> h < nh s -> KKd (install_pool s h c) (fun x => dom x \/ x = c).
+Proof.
+  intros H Hh. unfold install_pool. destruct (sess_down s) eqn:Es; [apply KKd_close_add; exact H|].
+  destruct H as (A & B & C & D0).
+  assert (Hq : forall x, In x (opl_conns (pool s h)) \/ x = c ->
+               held (close_all (set_npool (upd_pool s h (Some (mkp (npool s) (Some c) false false []))) (S (npool s))) (opl_conns (pool s h))) x).
+  { intros x [Hx | ->].
+    - left. simpl. apply in_or_app; auto.
+    - right; right. exists h. simpl. rewrite Nat.eqb_refl. simpl. auto. }
+  split; [|split; [|split]]; simpl; auto.
+  - intros x [Hx | ->]; [|apply Hq; auto].
+    destruct (A x Hx) as [H | [H | [h' H]]].
+    + left. simpl. apply in_or_app; auto.
+    + right; left; auto.
+    + destruct (h' =? h) eqn:E.
+      * apply Nat.eqb_eq in E; subst h'. apply Hq. auto.
+      * right; right. exists h'. simpl. rewrite E. exact H.
+  - intros Hd. congruence.
+  - intros x Hx. destruct (x =? h) eqn:E; auto. apply Nat.eqb_eq in E; subst. lia.
+Qed.
+
 Opaque connect.
 
 Lemma KK_of s n : nconn s = n -> KKn s n -> KK s.
@@ -332,71 +475,160 @@ Ltac kkframe := first [ assumption
 Lemma nconn_close_opt s o : nconn (close_opt s o) = nconn s.
 Proof. destruct o; reflexivity. Qed.
 
+(* a live pool's record changes (flag, current connection, trash) while l is closed; nothing it held is dropped *)
+Lemma KK_upd s h q q' l : KK s -> pool s h = Some q -> pshut q = false ->
+  (forall x, In x (pl_conns q) -> In x l \/ In x (pl_conns q')) ->
+  KK (close_all (upd_pool s h (Some q')) l).
+Proof.
+  intros H Hq Hs Hold. unfold KK in *.
+  change (nconn (close_all (upd_pool s h (Some q')) l)) with (nconn s).
+  apply (KKn_upd s (nconn s) (nconn s) h q' l H).
+  - eapply live_pool_session_up; eauto.
+  - eapply pool_in_range; eauto.
+  - rewrite Hq. exact Hold.
+  - intros x H1 H2. lia.
+Qed.
+
+Lemma KK_run_task s t o d : KK s -> KK (run_task s t o d).
+Proof.
+  intros H0. destruct t; cbn [run_task].
+  - destruct o; [|exact H0]. destruct (negb (h <? nh s)) eqn:Eh; [exact H0|].
+    apply negb_false_iff, Nat.ltb_lt in Eh.
+    destruct (connect s d) as [s1 c] eqn:Ec.
+    destruct (connect_spec _ _ _ _ H0 Ec) as (H1 & -> & Hn & Hh).
+    apply (KK_of _ (S (nconn s))).
+    + unfold install_pool. destruct (sess_down s1); simpl; exact Hn.
+    + apply KKn_install_pool; auto. rewrite Hh; exact Eh.
+  - destruct (pool s h) as [q|] eqn:Ep0; [|exact H0].
+    destruct ((pid q =? p) && negb (pshut q)); [|exact H0].
+    destruct o.
+    + destruct (connect s d) as [s1 c] eqn:Ec.
+      destruct (connect_spec _ _ _ _ H0 Ec) as (H1 & -> & Hn & Hh).
+      assert (Hclose : KK (close s1 (nconn s))) by (apply (KK_of _ (S (nconn s))); [exact Hn | apply KKn_close_new; exact H1]).
+      destruct (pool s1 h) as [q'|] eqn:Ep; [|exact Hclose].
+      destruct (pshut q') eqn:Esh; [exact Hclose|].
+      assert (Hsd : sess_down s1 = false) by (eapply live_pool_session_up; eauto).
+      assert (Hr : h < nh s1) by (eapply pool_in_range; eauto).
+      (* every non-closing branch: the pool gets the new connection; what it held stays held or is closed *)
+      assert (Hgen : forall q2 l, (forall x, In x (pl_conns q') -> In x l \/ In x (pl_conns q2)) -> In (nconn s) (pl_conns q2) ->
+                     KK (close_all (upd_pool s1 h (Some q2)) l)).
+      { intros q2 l Hold Hnew. apply (KK_of _ (S (nconn s))); [exact Hn|].
+        apply (KKn_upd s1 (nconn s) (S (nconn s)) h q2 l H1 Hsd Hr).
+        - rewrite Ep. exact Hold.
+        - intros x Hx1 Hx2. right. assert (x = nconn s) by lia. subst. exact Hnew. }
+      destruct (pconn q') as [c1|] eqn:Epc.
+      * destruct (c1 =? c0) eqn:Ecc; [|exact Hclose]. apply Nat.eqb_eq in Ecc; subst c1.
+        destruct m.
+        -- apply (Hgen (mkp (pid q') (Some (nconn s)) false false (ptrash q')) [c0]).
+           ++ intros x Hx. unfold pl_conns in Hx. rewrite Epc in Hx. simpl in Hx. destruct Hx as [-> | Hx]; [left; simpl; auto|].
+              right. unfold pl_conns; simpl. auto.
+           ++ unfold pl_conns; simpl; auto.
+        -- eapply KK_frame; [| | | | | | | apply (Hgen (mkp (pid q') (Some (nconn s)) false false (c0 :: ptrash q')) [])]; try reflexivity.
+           ++ intros x Hx. unfold pl_conns in Hx. rewrite Epc in Hx. simpl in Hx. right. unfold pl_conns; simpl.
+              destruct Hx as [-> | Hx]; auto.
+           ++ unfold pl_conns; simpl; auto.
+        -- apply (Hgen (mkp (pid q') (Some (nconn s)) false false (ptrash q')) [c0]).
+           ++ intros x Hx. unfold pl_conns in Hx. rewrite Epc in Hx. simpl in Hx. destruct Hx as [-> | Hx]; [left; simpl; auto|].
+              right. unfold pl_conns; simpl. auto.
+           ++ unfold pl_conns; simpl; auto.
+      * eapply KK_frame; [| | | | | | | apply (Hgen (mkp (pid q') (Some (nconn s)) false false
+                                              (match m with RBusy => c0 :: ptrash q' | _ => ptrash q' end)) [])]; try reflexivity.
+        -- intros x Hx. unfold pl_conns in Hx. rewrite Epc in Hx. simpl in Hx. right. unfold pl_conns; simpl.
+           destruct m; simpl; auto.
+        -- unfold pl_conns; simpl; auto.
+    + cbn zeta. destruct (sess_down (att s 1)); kkframe.
+  - destruct o.
+    + destruct (connect s d) as [s1 c] eqn:Ec.
+      destruct (connect_spec _ _ _ _ H0 Ec) as (H1 & -> & Hn & Hh).
+      destruct (cc_down s1) eqn:Ed.
+      * apply (KK_of _ (S (nconn s))); [exact Hn | apply KKn_close_new; exact H1].
+      * apply (KK_of _ (S (nconn s))); [simpl; rewrite nconn_close_opt; exact Hn | apply KKn_install_cc; auto].
+    + destruct d.
+      * assert (H1 : KK (att s 1)) by kkframe.
+        apply (KK_of _ (nconn (att s 1))); [apply nconn_cluster_shutdown | apply KKn_cluster_shutdown; exact H1].
+      * destruct (cc_down s); [kkframe|]. cbn zeta. destruct (sched_down (att s (nh s))); kkframe.
+Qed.
+
+Lemma KK_fire s t o d : KK s -> KK (fire s t o d).
+Proof.
+  intros H0. destruct t; cbn [fire].
+  - destruct live; cbn [negb]; [|exact H0]. destruct o.
+    + destruct (connect s d) as [s1 c] eqn:Ec.
+      destruct (connect_spec _ _ _ _ H0 Ec) as (H1 & -> & Hn & Hh).
+      apply (KK_of _ (S (nconn s))); [exact Hn | apply KKn_close_new; exact H1].
+    + cbn zeta. destruct (sched_down (att s 1)); kkframe.
+  - destruct live; cbn [negb]; [|exact H0]. destruct o.
+    + destruct (connect s d) as [s1 c] eqn:Ec.
+      destruct (connect_spec _ _ _ _ H0 Ec) as (H1 & -> & Hn & Hh).
+      destruct (cc_down s1) eqn:Ed.
+      * apply (KK_of _ (S (nconn s))); [exact Hn | apply KKn_close_new; exact H1].
+      * apply (KK_of _ (S (nconn s))); [simpl; rewrite nconn_close_opt; exact Hn |].
+        apply KKn_close. apply KKn_install_cc; auto.
+    + destruct d.
+      * assert (H1 : KK (att s 1)) by kkframe.
+        apply (KK_of _ (nconn (att s 1))); [apply nconn_cluster_shutdown | apply KKn_cluster_shutdown; exact H1].
+      * cbn zeta. destruct (sched_down (att s (nh s))); kkframe.
+Qed.
+
+Lemma nconn_install_pool s h c : nconn (install_pool s h c) = nconn s.
+Proof. unfold install_pool. destruct (sess_down s); reflexivity. Qed.
+
 Lemma KK_step s o : KK s -> KK (fst (step s o)).
 Proof.
-  intros H. destruct o; simpl.
+  intros H. destruct o; [simpl | simpl | simpl | simpl | simpl | simpl | simpl | simpl | cbn [step] | simpl | simpl | simpl | simpl].
   - destruct (sess_down s); simpl; kkframe.
-  - destruct (pool_conn (pool s h)); simpl.
-    + destruct (sess_down s); simpl; kkframe.
-    + kkframe.
+  - destruct (pool s h) as [q|] eqn:Ep; [|exact H]. destruct (pconn q) eqn:Epc; [|exact H].
+    destruct (prepl q || pshut q) eqn:Eps; [exact H|]. apply orb_false_iff in Eps. destruct Eps as [_ Esh].
+    assert (H1 : KK (upd_pool s h (Some (mkp (pid q) (pconn q) (pshut q) true (ptrash q))))).
+    { eapply KK_frame; [| | | | | | | apply (KK_upd s h q (mkp (pid q) (pconn q) (pshut q) true (ptrash q)) [] H Ep Esh)]; try reflexivity.
+      intros x Hx. right. exact Hx. }
+    rewrite Epc in H1. destruct (sess_down s); simpl; kkframe.
+  - destruct (pool s h) as [q|] eqn:Ep; [|exact H]. destruct (pconn q) as [c|] eqn:Epc; [|exact H].
+    destruct (pshut q) eqn:Esh; [exact H|].
+    assert (H1 : KK (close (upd_pool s h (Some (mkp (pid q) None false true (ptrash q)))) c)).
+    { apply (KK_upd s h q (mkp (pid q) None false true (ptrash q)) [c] H Ep Esh).
+      intros x Hx. unfold pl_conns in *. rewrite Epc in Hx. simpl in *. destruct Hx as [-> | Hx]; auto. }
+    destruct (prepl q); [exact H1|]. destruct (sess_down s); simpl; kkframe.
+  - destruct (pool s h) as [q|] eqn:Ep; [|exact H]. destruct (ptrash q) as [|c rest] eqn:Et; [exact H|].
+    destruct (pshut q || existsb (Nat.eqb c) (closed s)) eqn:Eg; [exact H|]. apply orb_false_iff in Eg. destruct Eg as [Esh _]. simpl.
+    apply (KK_upd s h q (mkp (pid q) (pconn q) (pshut q) (prepl q) rest) [c] H Ep Esh).
+    intros x Hx. unfold pl_conns in *. rewrite Et in Hx. simpl. apply in_app_or in Hx. destruct Hx as [Hx | [-> | Hx]]; auto.
+    + right. apply in_or_app; auto.
+    + right. apply in_or_app; auto.
   - destruct (cc_down s || cl_down s); simpl; kkframe.
   - destruct (sched_down s); simpl; kkframe.
-  - destruct (nth_error (queue s) k) as [t|]; simpl; [|kkframe].
+  - destruct (nth_error (queue s) k) as [t|]; simpl; [|exact H]. apply KK_run_task. kkframe.
+  - destruct (sched_down s) eqn:Es; simpl; [exact H|].
+    destruct (nth_error (timers s) k) as [t|]; simpl; [|exact H]. apply KK_fire. kkframe.
+  - destruct (nth_error (queue s) k) as [[h i|? ? ? ?|]|]; try exact H.
+    match goal with |- context [nth_error ?l j] => destruct (nth_error l j) as [[h' i'|? ? ? ?|]|] end; try exact H.
+    destruct (negb (h <? nh s) || negb (h' <? nh s)) eqn:Er; [exact H|].
+    apply orb_false_iff in Er. destruct Er as [Er1 Er2].
+    apply negb_false_iff, Nat.ltb_lt in Er1. apply negb_false_iff, Nat.ltb_lt in Er2.
     assert (H0 : KK (set_queue s (remove_nth k (queue s)))) by kkframe.
     set (s0 := set_queue s (remove_nth k (queue s))) in *.
-    destruct t; cbn [run_task].
-    + destruct o; [|exact H0]. destruct (negb (h <? nh s0)) eqn:Eh; [exact H0|].
-      apply negb_false_iff, Nat.ltb_lt in Eh.
-      destruct (connect s0 during) as [s1 c] eqn:Ec.
-      destruct (connect_spec _ _ _ _ H0 Ec) as (H1 & -> & Hn & Hh).
-      destruct (sess_down s1) eqn:Es.
-      * apply (KK_of _ (S (nconn s0))); [exact Hn | apply KKn_close_new; exact H1].
-      * apply (KK_of _ (S (nconn s0))); [rewrite nconn_close_opt; exact Hn |].
-        apply KKn_install_pool; auto. rewrite Hh; exact Eh.
-    + destruct (pool s0 h) as [[[c0'|] [|]]|]; try exact H0. destruct (c0' =? c0); [|exact H0].
-      destruct o.
-      * destruct (connect s0 during) as [s1 c] eqn:Ec.
-        destruct (connect_spec _ _ _ _ H0 Ec) as (H1 & -> & Hn & Hh).
-        destruct (pool s1 h) as [[[x|] [|]]|] eqn:Ep;
-          try (apply (KK_of _ (S (nconn s0))); [exact Hn | apply KKn_close_new; exact H1]).
-        apply (KK_of _ (S (nconn s0))).
-        -- rewrite <- Ep. rewrite nconn_close_opt. exact Hn.
-        -- rewrite <- Ep. destruct H1 as (A & B & C & D0).
-           apply KKn_install_pool; [repeat split; auto | |].
-           ++ destruct (sess_down s1) eqn:Es; auto. specialize (C eq_refl h). rewrite Ep in C. discriminate.
-           ++ destruct (Nat.lt_ge_cases h (nh s1)) as [|Hge]; auto. rewrite (D0 h Hge) in Ep. discriminate.
-      * cbn zeta. destruct (sess_down (att s0 1)); kkframe.
-    + destruct o.
-      * destruct (connect s0 during) as [s1 c] eqn:Ec.
-        destruct (connect_spec _ _ _ _ H0 Ec) as (H1 & -> & Hn & Hh).
-        destruct (cc_down s1) eqn:Ed.
-        -- apply (KK_of _ (S (nconn s0))); [exact Hn | apply KKn_close_new; exact H1].
-        -- apply (KK_of _ (S (nconn s0))); [simpl; rewrite nconn_close_opt; exact Hn | apply KKn_install_cc; auto].
-      * destruct during.
-        -- assert (H1 : KK (att s0 1)) by kkframe.
-           apply (KK_of _ (nconn (att s0 1))); [apply nconn_cluster_shutdown | apply KKn_cluster_shutdown; exact H1].
-        -- destruct (cc_down s0); [kkframe|]. cbn zeta. destruct (sched_down (att s0 (nh s0))); kkframe.
-  - destruct (sched_down s) eqn:Es; simpl; [kkframe|].
-    destruct (nth_error (timers s) k) as [t|]; simpl; [|kkframe].
-    assert (H0 : KK (set_timers s (remove_nth k (timers s)))) by kkframe.
-    set (s0 := set_timers s (remove_nth k (timers s))) in *.
-    destruct t; cbn [fire].
-    + destruct live; cbn [negb]; [|exact H0]. destruct o.
-      * destruct (connect s0 during) as [s1 c] eqn:Ec.
-        destruct (connect_spec _ _ _ _ H0 Ec) as (H1 & -> & Hn & Hh).
-        apply (KK_of _ (S (nconn s0))); [exact Hn | apply KKn_close_new; exact H1].
-      * cbn zeta. destruct (sched_down (att s0 1)); kkframe.
-    + destruct live; cbn [negb]; [|exact H0]. destruct o.
-      * destruct (connect s0 during) as [s1 c] eqn:Ec.
-        destruct (connect_spec _ _ _ _ H0 Ec) as (H1 & -> & Hn & Hh).
-        destruct (cc_down s1) eqn:Ed.
-        -- apply (KK_of _ (S (nconn s0))); [exact Hn | apply KKn_close_new; exact H1].
-        -- apply (KK_of _ (S (nconn s0))); [simpl; rewrite nconn_close_opt; exact Hn |].
-           apply KKn_close. apply KKn_install_cc; auto.
-      * destruct during.
-        -- assert (H1 : KK (att s0 1)) by kkframe.
-           apply (KK_of _ (nconn (att s0 1))); [apply nconn_cluster_shutdown | apply KKn_cluster_shutdown; exact H1].
-        -- cbn zeta. destruct (sched_down (att s0 (nh s0))); kkframe.
+    destruct (connect s0 false) as [s1 c] eqn:Ec.
+    destruct (connect_spec _ _ _ _ H0 Ec) as (H1 & -> & Hn & Hh). cbn [fst].
+    (* the inner creation runs while connection (nconn s0) is not installed yet *)
+    cbn [run_task].
+    replace (negb (h' <? nh (set_queue s1 (remove_nth j (queue s1))))) with false
+      by (symmetry; apply negb_false_iff, Nat.ltb_lt; simpl; rewrite Hh; exact Er2).
+    destruct (connect (set_queue s1 (remove_nth j (queue s1))) false) as [s3 c3] eqn:Ec3.
+    assert (E3 : s3 = att (set_nconn (set_queue s1 (remove_nth j (queue s1))) (S (nconn s1))) 1 /\ c3 = nconn s1).
+    { Transparent connect. unfold connect in Ec3. inversion Ec3; subst. split; reflexivity. Opaque connect. }
+    destruct E3 as [-> ->].
+    set (s3 := att (set_nconn (set_queue s1 (remove_nth j (queue s1))) (S (nconn s1))) 1).
+    assert (H3 : KKd s3 (fun x => x < nconn s0)) by (eapply KKd_frame; [| | | | | | exact H1]; reflexivity).
+    assert (Hh3 : nh s3 = nh s) by (simpl; exact Hh).
+    pose proof (KKd_install_pool s3 _ h' (nconn s1) H3 (eq_ind_r (fun z => h' < z) Er2 Hh3)) as H4.
+    assert (Hh4 : nh (install_pool s3 h' (nconn s1)) = nh s) by (unfold install_pool; destruct (sess_down s3); simpl; exact Hh).
+    pose proof (KKd_install_pool _ _ h (nconn s0) H4 (eq_ind_r (fun z => h < z) Er1 Hh4)) as H5.
+    unfold KK, KKn.
+    eapply KKd_mono; [| exact H5].
+    intros x Hx. simpl.
+    assert (Hnc : nconn (install_pool (install_pool s3 h' (nconn s1)) h (nconn s0)) = S (S (nconn s0))).
+    { rewrite !nconn_install_pool. unfold s3. simpl. rewrite Hn. reflexivity. }
+    rewrite Hnc in Hx. cbv beta. rewrite Hn. change (nconn s0) with (nconn s) in *. lia.
   - apply (KK_of _ (nconn s)); [apply nconn_cluster_shutdown | apply KKn_cluster_shutdown; exact H].
   - apply (KK_of _ (nconn s)); [apply nconn_session_shutdown | apply KKn_session_shutdown; exact H].
   - exact H.
@@ -408,10 +640,10 @@ Proof. induction os; simpl; intros s H; auto. apply IHos. apply KK_step; auto. Q
 
 Lemma KK_init n : KK (init n).
 Proof.
-  unfold KK, KKn, held, init; simpl. split; [|split; [|split]]; try discriminate.
+  unfold KK, KKn, KKd, held, init; simpl. split; [|split; [|split]]; try discriminate.
   - intros c Hc. destruct c.
     + right; left; auto.
-    + right; right. exists c. destruct (c <? n) eqn:E; auto. apply Nat.ltb_ge in E. lia.
+    + right; right. exists c. destruct (c <? n) eqn:E; simpl; auto. apply Nat.ltb_ge in E. lia.
   - intros h Hh. destruct (h <? n) eqn:E; auto. apply Nat.ltb_lt in E. lia.
 Qed.
 
@@ -421,7 +653,7 @@ Lemma all_closed_when_down s : KK s -> sess_down s = true -> cc_down s = true ->
 Proof.
   intros (A & B & C & D0) Hs Hc c Hlt. destruct (A c Hlt) as [H | [H | [h H]]]; auto.
   - rewrite (B Hc) in H. discriminate.
-  - rewrite (C Hs h) in H. discriminate.
+  - destruct (pool s h) as [q|] eqn:Ep; [|destruct H]. destruct (C Hs h q Ep) as [_ E]. simpl in H. rewrite E in H. destruct H.
 Qed.
 
 (* after Session.shutdown alone: the only connection that may be open is the control connection's *)
@@ -429,5 +661,10 @@ Lemma session_closed_when_down s : KK s -> sess_down s = true ->
   forall c, c < nconn s -> In c (closed s) \/ cc_conn s = Some c.
 Proof.
   intros (A & B & C & D0) Hs c Hlt. destruct (A c Hlt) as [H | [H | [h H]]]; auto.
-  rewrite (C Hs h) in H. discriminate.
+  destruct (pool s h) as [q|] eqn:Ep; [|destruct H]. destruct (C Hs h q Ep) as [_ E]. simpl in H. rewrite E in H. destruct H.
 Qed.
+
+(* at any time, shut down or not: an open connection belongs to the control connection or to a pool registered in the
+   session (as its current connection or in its trash) -- nothing is orphaned, so a later shutdown reaches it *)
+Lemma open_has_owner s c : KK s -> c < nconn s -> held s c.
+Proof. intros (A & _) Hc. auto. Qed.
